@@ -715,14 +715,14 @@ func (Area) Gen(r *rand.Rand, tier string, emit func(string)) {
 	}
 	// 2. text parsing of every modelled kind
 	pfKinds := []string{"bool", "int32", "sint32", "sfixed32", "int64", "sint64", "sfixed64", "uint32", "fixed32", "uint64", "fixed64", "string", "bytes", "enum",
-		"Int64Value", "Int32Value", "UInt64Value", "UInt32Value", "BoolValue", "StringValue", "BytesValue", "FieldMask"}
+		"Int64Value", "Int32Value", "UInt64Value", "UInt32Value", "BoolValue", "StringValue", "BytesValue", "FieldMask", "Duration"}
 	for _, k := range pfKinds {
 		base := k
 		ref := "-"
 		switch {
 		case k == "enum":
 			ref = "PE"
-		case strings.HasSuffix(k, "Value") || k == "FieldMask":
+		case strings.HasSuffix(k, "Value") || k == "FieldMask" || k == "Duration":
 			base, ref = "message", "google.protobuf."+k
 		}
 		seen := map[string]bool{}
@@ -741,6 +741,14 @@ func (Area) Gen(r *rand.Rand, tier string, emit func(string)) {
 		n := 150
 		if tier == "thorough" {
 			n = 4000
+		}
+		if k == "Duration" {
+			for _, t := range durationTexts {
+				try(t)
+			}
+			for i := 0; i < 6*n; i++ {
+				try(randDuration(r))
+			}
 		}
 		for i := 0; i < n; i++ {
 			try(textFor(r, pfSchema, base, ref, r.Intn(3) != 0))
@@ -785,4 +793,50 @@ func (Area) Gen(r *rand.Rand, tier string, emit func(string)) {
 			}
 		}
 	}
+}
+
+// durationTexts: the grammar of time.ParseDuration ([-+]?([0-9]*(\.[0-9]*)?[a-z]+)+) at its edges: canonical proto3 JSON
+// forms ("1.5s", 0 to 9 fraction digits), every unit, sums, signs, the int64 nanosecond range, fractions finer than the
+// unit (Go rounds through float64 there), missing digits / units, junk.
+var durationTexts = []string{
+	"0", "+0", "-0", "0s", "1s", "-1s", "+1s", "1.5s", "-1.5s", "0.5s", ".5s", "5.s", ".s", "-.s", "1.s", "1.0s", "1.000000000s",
+	"0.000000001s", "0.999999999s", "-0.999999999s", "0.0000000001s", "0.0000000019s", "1.0000000000s", "1.0000000001s", "3.000000000000000000000000s",
+	"1.9999999999s", "0.1234567891s", "9223372036s", "9223372036.854775807s", "9223372036.854775808s", "-9223372036.854775808s", "-9223372036.854775809s",
+	"9223372037s", "315576000000s", "-315576000000s", "315576000001s", "1h", "1m", "1ms", "1us", "1\u00b5s", "1\u03bcs", "1ns", "1.5ns", "1.5us", "1.0005us", "1.5ms", "1.0000005ms",
+	"1.5m", "1.5h", "0.00000000001h", "0.000000000001h", "1h2m3s4ms5us6ns", "-1h2m3s", "1h-2m", "1h+2m", "2m1h", "1s1s", "1.5s1.5s", "2562047h", "2562047h47m16.854775807s",
+	"2562047h47m16.854775808s", "-2562047h47m16.854775808s", "2562048h", "153722867m", "153722868m", "9223372036854775807ns", "9223372036854775808ns",
+	"-9223372036854775808ns", "9223372036854775809ns", "18446744073709551616ns", "99999999999999999999s", "00001s", "1S", "1 s", " 1s", "1s ", "1", "-1", "s", "-", "+", "",
+	"1d", "1w", "1sec", "1.5", "1..5s", "1.5.5s", "1e3s", "0x1s", "1_000s", "\u0661s", "1s\n", "--1s", "+-1s", "1,5s", "NaNs", "infs", "0h0m0s", "0.0s", "-0.0s", "1h0.5s",
+	"0.3s", "0.1s0.2s", "4000000000.5s", "1000000h", "1.00000000001h", "1.23456789012h", "0.7m", "0.0166666666666m",
+}
+
+func randDuration(r *rand.Rand) string {
+	units := []string{"ns", "us", "\u00b5s", "\u03bcs", "ms", "s", "s", "s", "m", "h", "d", "", "S"}
+	var b strings.Builder
+	switch r.Intn(6) {
+	case 0:
+		b.WriteByte('-')
+	case 1:
+		b.WriteByte('+')
+	}
+	for n := 1 + r.Intn(3); n > 0; n-- {
+		switch r.Intn(8) {
+		case 0: // no integer part
+		case 1:
+			b.WriteString(strconv.FormatUint(r.Uint64()>>uint(r.Intn(64)), 10))
+		default:
+			b.WriteString(strconv.Itoa(r.Intn(100000)))
+		}
+		if r.Intn(2) == 0 {
+			b.WriteByte('.')
+			for k := r.Intn(14); k > 0; k-- {
+				b.WriteByte(byte('0' + r.Intn(10)))
+			}
+		}
+		b.WriteString(units[r.Intn(len(units))])
+		if r.Intn(3) > 0 {
+			break
+		}
+	}
+	return b.String()
 }
